@@ -78,9 +78,10 @@ CLAIMED = {
          '(hs_total_on_ergodic_input, on Gauss-Jordan soundness/completeness, the maximum principle and the Dirichlet-form identity; Proofs/GaussFacts.v, Proofs/Totality.v). Tie: implementation vs exact matrix within 1e-8, labels, refusal, plus exact row-sum/stationarity checks of the implementation output.',
          COMMON_NOTE + 'LAPACK inv/eig trusted within 1e-8; certificates can fail (reported as model failure, never observed).',
          'DESIGN.md section 6 C03'),
- 'C04': ('Coq proof (returned vector is a certified stationary probability vector; strict mode rejects) + differential correspondence within 1e-9 and exact relational checker',
-         'proof (partial): whatever the model returns is a probability vector stationary for T (ergodic) resp. for the renormalised restriction to the ergodic mask, and strict mode rejects every non-ergodic '
-         'input (theorems); the stationary probability vector of a matrix with an entrywise positive power is unique (stationary_unique_thm, peq_unique), exists and is found by the exact solver (stationary_exists_thm); for the non-ergodic branch uniqueness on the restricted matrix is certified per case. Tie: |pi_impl - pi_exact| <= 1e-9 where the exact vector is unique, the exact checker peq_ok on every accepted output, error iff.',
+ 'C04': ('Coq proof (first clause in full: found, stationary for T, zero outside the closed class, unique; second clause: stationary for the renormalised restriction; strict mode rejects) + differential correspondence within 1e-9 and exact relational checker',
+         'proof: for a stochastic matrix away from the 1e-8 threshold whose only closed class is aperiodic and larger than every other class, the model returns a vector, it is a probability vector with pi T = pi, zero outside the class, and every stationary probability vector of T equals it '
+         '(peq_closed_unique_thm; Proofs/PeqClosed.v on the C14 mask theorem, the Wielandt bound, existence of the stationary vector and a mass-balance argument for transient states; guard: every class with a cycle aperiodic); whatever the model returns for any other accepted matrix is a probability vector stationary for the renormalised restriction to the mask (peq_general); strict mode rejects every non-ergodic '
+         'input. Tie: |pi_impl - pi_exact| <= 1e-9 where the exact vector is unique, the exact checker peq_ok on every accepted output, error iff. LAPACK itself is outside the model.',
          COMMON_NOTE + 'One genuine defect (periodic classes) is a recorded known finding.',
          'DESIGN.md section 6 C04'),
  'C06': ('Coq proof (event automaton = reference extraction; loop erasure invariants; dictionary partition; sorted-merge intersection) + differential correspondence, exhaustive small scope',
